@@ -55,9 +55,9 @@ def rule_modes(chk: Check, model, rid: str):
         if e.kind == "call" and e.name.endswith("grow_supergraph"):
             gs = e.args[0]
     evs = [e for e in r.events if e.kind == "call" and e.name.endswith("evaluate_supergraph")]
-    ok = gs is not None and len(evs) == 2 and all(e.args[0] == gs for e in evs)
+    ok = gs is not None and len(evs) >= 1 and all(e.args and e.args[0] == gs for e in evs)  # (one call per baseline mode, or one shared by both)
     bs = [e for e in r.events if e.kind == "call" and e.name.endswith("baselines_S")]
-    ok = ok and len(bs) == 2 and all(e.args and e.args[0] == gs for e in bs)
+    ok = ok and len(bs) >= 1 and all(e.args and e.args[0] == gs for e in bs)
     chk.add(rid, "same graphs for growing and evaluating", ok, "baseline modes must evaluate the supergraph on the same (pruned / connected) graphs MCS grows on", chk.loc(fi))
     if gs is not None:
         pr = S("prune")
